@@ -460,7 +460,7 @@ def run_property(prop, module, tier, repo, seed):
             sys.path.insert(0, VERIF)
             from selftest.run import validate
 
-            s = validate(prop, repo, jobs=int(os.environ.get("VERIF_JOBS", "16")))
+            s = validate(prop, repo, jobs=int(os.environ.get("VERIF_JOBS", "16")), seeds=not os.environ.get("VERIF_NO_SEEDS"))
             if "error" in s:
                 R.selftest = {"error": s["error"]}
                 print(f"CHECKER-VALIDATION property={prop} not run: {s['error']}")
